@@ -360,9 +360,19 @@ package kv
 // before the version objects that reference them.
 // linkIn(v, n): node object n is part of the tree of snapshot v.
 //@ ufunc linkIn(v int, n string) bool
+// ghost record of the most recent deletion of history: which handle's version
+// was the one whose nodes were protected (callers must end up showing THAT
+// version: a handle committed later is not protected by this call)
+//@ ghostvar historyDeletions int
+//@ ghostvar historyHandle int
+//@ ghostvar historySnapshot int
 //@ func DeleteHistoricVersions
 //@   requires dbOK(s)
-//@   modifies deletes
+//@   modifies deletes, historyDeletions, historyHandle, historySnapshot
+//@   ghost historyDeletions = historyDeletions + 1
+//@   ghost historyHandle = int(s)
+//@   ghost historySnapshot = int(*s.crdt.Mast)
+//@   ensures recorded: historyDeletions == old(historyDeletions) + 1 && historyHandle == int(s) && historySnapshot == int(*s.crdt.Mast)
 //@   ensures readonly: imp(s.readonly, result == ErrReadOnly && deletes == old(deletes))
 //@   ensures no-put: puts == old(puts)
 //@   loop 1 invariant -1 <= rangeindex && rangeindex < len(nodes) && puts == old(puts)
